@@ -1547,6 +1547,7 @@ func (fx *FnExec) evalCallC(x *ast.CallExpr, env *evalEnv) (cval, error) {
 		}
 		fnm := "implements_" + sanitize(types.TypeString(t, func(p *types.Package) string { return p.Name() }))
 		fx.declareFun(fnm, []string{"Int"}, "Bool")
+		fx.noteIfacePred(fnm, t)
 		return boolr("(and (distinct (i.tag " + v.S + ") 0) (" + fnm + " (i.tag " + v.S + ")))")
 	case "typeIs": // typeIs(v, "int64")
 		v, err := fx.evalC(x.Args[0], env)
